@@ -52,6 +52,7 @@ class MThread:
         return f"<MThread {self.name} {self.state}>"
 
 
+RESET_HOOKS: list = []     # callables run at the start of every Scheduler.run (reset module-level shim state)
 _tls = _rt.local()
 _CURRENT_SCHED = None  # type: Scheduler | None
 
@@ -381,6 +382,18 @@ class Scheduler:
         me.state = "ready"
         self._switch(me)
 
+    def yield_soft(self, me: MThread, what=None):
+        """Scheduling point of a release-type operation: never raises Abort (a dying thread must still be able
+        to release what it holds while unwinding), it simply does not switch once the execution is being torn down."""
+        if self.aborting:
+            return
+        me.ops += 1
+        me.state = "ready"
+        try:
+            self._switch(me)
+        except Abort:
+            return
+
     def block(self, me: MThread, pred, deadline=None, what=None) -> bool:
         """Block until pred() holds (checked at scheduling time) or the deadline passes. Returns True on timeout."""
         if self.aborting:
@@ -401,6 +414,8 @@ class Scheduler:
         """Run fn in a managed thread called `name`; returns when every managed thread is done or aborted."""
         global _CURRENT_SCHED
         _CURRENT_SCHED = self
+        for h in RESET_HOOKS:
+            h()
 
         def main_wrapper():
             try:
@@ -465,14 +480,14 @@ class Lock:
     def release(self):
         s, me = current()
         if me is not None:
-            s.yield_point(me, "Lock.release")
+            s.yield_soft(me, "Lock.release")
         if self._owner is None:
             raise RuntimeError("release unlocked lock")
         self._owner = None
         if self._hook is not None:
             self._hook("release", self)
         if me is not None and s.post_yield:
-            s.yield_point(me, "Lock.released")
+            s.yield_soft(me, "Lock.released")
 
     def locked(self):
         return self._owner is not None
@@ -526,7 +541,7 @@ class RLock:
         self._count -= 1
         if self._count == 0:
             if me is not None:
-                s.yield_point(me, "RLock.release")
+                s.yield_soft(me, "RLock.release")
             self._owner = None
 
     __enter__ = acquire
@@ -645,12 +660,12 @@ class Event:
     def set(self):
         s, me = current()
         if me is not None:
-            s.yield_point(me, "Event.set")
+            s.yield_soft(me, "Event.set")
         self._flag = True
         if self._hook is not None:
             self._hook("set", self)
         if me is not None and s.post_yield:
-            s.yield_point(me, "Event.was_set")
+            s.yield_soft(me, "Event.was_set")
 
     def clear(self):
         s, me = current()
@@ -704,10 +719,10 @@ class Semaphore:
     def release(self, n=1):
         s, me = current()
         if me is not None:
-            s.yield_point(me, "Semaphore.release")
+            s.yield_soft(me, "Semaphore.release")
         self._value += n
         if me is not None and s.post_yield:
-            s.yield_point(me, "Semaphore.released")
+            s.yield_soft(me, "Semaphore.released")
 
     __enter__ = acquire
 
@@ -838,13 +853,13 @@ class Queue:
     def put(self, item, block=True, timeout=None):
         s, me = current()
         if me is not None:
-            s.yield_point(me, "Queue.put")
+            s.yield_soft(me, "Queue.put")
         self._q.append(item)
         self._unfinished += 1
         if self._hook is not None:
             self._hook("put", self, item)
         if me is not None and s.post_yield:
-            s.yield_point(me, "Queue.was_put")
+            s.yield_soft(me, "Queue.was_put")
 
     def put_nowait(self, item):
         return self.put(item, block=False)
@@ -902,7 +917,7 @@ class SimpleQueue:
     def put(self, item, block=True, timeout=None):
         s, me = current()
         if me is not None:
-            s.yield_point(me, "SimpleQueue.put")
+            s.yield_soft(me, "SimpleQueue.put")
         self._q.append(item)
 
     put_nowait = put
